@@ -61,6 +61,11 @@ func collect(path string, v reflect.Value, depth int, seen map[reflect.Type]bool
 	if (v.Kind() == reflect.Ptr || v.Kind() == reflect.Interface) && v.IsNil() {
 		return
 	}
+	if v.Kind() == reflect.Interface {
+		// Parameters() returns the key.Parameters interface: walk the methods of the object behind
+		// it (Salt(), nested parameters ...), not the two methods of the interface
+		v = v.Elem()
+	}
 	t := v.Type()
 	if seen[t] {
 		return
